@@ -13,7 +13,7 @@ from vlib import vfmt
 import C10, C02
 from C10 import fparse
 
-LEVEL = "partial"
+LEVEL = "proof"
 PATTERNS = [0, 0x55, 0xAA, 0xFF]
 EXTRA_FORMATS = {     # write-only formats C02 cannot round-trip
     "shar": dict(types=[C10.REG, C10.DIR, C10.LNK], names="any", fields=set(), order="seq"),
